@@ -124,7 +124,12 @@ var interesting = map[vm.OpCode]int{ // op -> number of stack operands to record
 
 func (t *TracerMon) CaptureStart(env *vm.EVM, from common.Address, to common.Address, create bool, input []byte, gas uint64, value *big.Int) {
 }
-func (t *TracerMon) CaptureEnd(output []byte, gasUsed uint64, d time.Duration, err error) {}
+func (t *TracerMon) CaptureEnd(output []byte, gasUsed uint64, d time.Duration, err error) {
+	if err != nil {
+		// the outermost Call / Create reports failure: whatever it did must be gone by now
+		t.ex.P.failedWithoutRevert(0, true, "transaction")
+	}
+}
 func (t *TracerMon) CaptureFault(env *vm.EVM, pc uint64, op vm.OpCode, gas, cost uint64, scope *vm.ScopeContext, depth int, err error) {
 	t.closeFramesAbove(depth-1, err)
 }
@@ -284,6 +289,13 @@ func (t *TracerMon) finish(env *vm.EVM, f *frame, scope *vm.ScopeContext) {
 	if rec.LedgerBefore != nil {
 		rec.LedgerAfter = t.ledgerEntry(rec)
 	}
+	switch rec.Op {
+	case vm.CALL, vm.CALLCODE, vm.DELEGATECALL, vm.STATICCALL, vm.CREATE, vm.CREATE2:
+		// the frame entered by this operation reported failure (status word 0) to its caller
+		if rec.stackOK() && rec.Result.IsZero() {
+			t.ex.P.failedWithoutRevert(rec.Seq, false, rec.Op.String())
+		}
+	}
 }
 
 // ---------------------------------------------------------------- state proxy
@@ -318,6 +330,11 @@ type StateProxy struct {
 	pendingEvm *snapRec
 	Snapshots  int
 	Reverts    int
+	// Created: every address handed to CreateAccount; bypassAccessList: simulation run (see Run)
+	Created          []common.Address
+	bypassAccessList bool
+	// FailedNoRevert: frames that reported failure although their entry snapshot was never reverted to
+	FailedNoRevert int
 	// DigestOn: the full-state digest is expensive; the C12 check turns it on
 	DigestOn bool
 }
@@ -346,12 +363,13 @@ func (p *StateProxy) touchedList() []common.Address {
 // PrepareAccessList: keep production enforcement although a tracer is attached
 // (the real implementation bypasses access-list checks when debug is set).
 func (p *StateProxy) PrepareAccessList(sender common.Address, dest *common.Address, precompiles []common.Address, list types.AccessList, debug bool) {
-	p.StateDB.PrepareAccessList(sender, dest, precompiles, list, false)
+	p.StateDB.PrepareAccessList(sender, dest, precompiles, list, p.bypassAccessList)
 }
 
 func (p *StateProxy) CreateAccount(a common.InternalAddress) {
 	p.flush()
 	p.touch(a)
+	p.Created = append(p.Created, common.BytesToAddress(a[:], Loc))
 	p.StateDB.CreateAccount(a)
 }
 func (p *StateProxy) AddBalance(a common.InternalAddress, v *big.Int) {
@@ -401,6 +419,44 @@ func (p *StateProxy) RevertToSnapshot(id int) {
 	// The EVM truncates its ETX cache and restores its lockup bookkeeping right
 	// after this call returns; check those at the next observable point.
 	p.pendingEvm = r
+}
+
+// failedWithoutRevert is called when a frame is seen to have ended in failure
+// (status word 0 pushed to its caller, or an error returned by the outermost
+// Call / Create). If the frame took a snapshot on entry and that snapshot was
+// never reverted to, the state now must still equal the state at the snapshot.
+// afterSeq: sequence number of the operation that entered the frame (the frame's
+// snapshot is the first one taken after it); top: the outermost frame.
+func (p *StateProxy) failedWithoutRevert(afterSeq int, top bool, what string) {
+	var r *snapRec
+	if top {
+		if len(p.order) > 0 {
+			r = p.order[0]
+		}
+	} else {
+		for _, s := range p.order {
+			if s.seq > afterSeq {
+				r = s
+				break
+			}
+		}
+	}
+	if r == nil || r.reverted {
+		return
+	}
+	p.FailedNoRevert++
+	if !p.DigestOn {
+		return
+	}
+	_, detail := p.stateDigest()
+	diff := diffDetail(r.detail, detail, "state:")
+	evm := map[string]string{}
+	if p.ex.EVM != nil && p.evmDigest(evm) != r.evmDig {
+		diff = append(diff, diffDetail(r.detail, evm, "evm:")...)
+	}
+	if len(diff) > 0 {
+		p.Mismatches = append(p.Mismatches, DigestMismatch{SnapID: r.id, TopLevel: r == p.order[0], Phase: "no-revert:" + what, Diff: diff})
+	}
 }
 
 // flush evaluates a deferred EVM-level comparison.
